@@ -376,7 +376,11 @@ def p_crypt_rt(c):
 def p_tables(c):
     """ShareSet.exp / log2 = powers / discrete logs of the generator 3 in GF(2^8)/0x11B, mutually inverse"""
     import buidl.shamir as S
+    at_import = [list(S.ShareSet.exp), list(S.ShareSet.log2)]
+    S.ShareSet._load()   # what the module does at import time; deterministic
     exp, log = list(S.ShareSet.exp), list(S.ShareSet.log2)
+    if [exp, log] != at_import:
+        return False, [exp, log], at_import
     want_exp, cur = [], 1
     for _ in range(255):
         want_exp.append(cur)
@@ -387,6 +391,26 @@ def p_tables(c):
     ok = (exp == want_exp and log == want_log and cur == 1 and sorted(want_exp) == list(range(1, 256))
           and all(exp[log[a]] == a for a in range(1, 256)) and all(log[exp[i]] == i for i in range(255)))
     return ok, [exp, log], [want_exp, want_log]
+
+
+def p_wordlist(c):
+    """WordList("slip39_words.txt", 1024): 1024 distinct words of >= 4 letters with pairwise distinct four-letter
+    prefixes (so that prefix lookup is well defined), full-word and prefix lookup give the index, another
+    declared size is refused"""
+    import buidl.shamir as S
+    import buidl.mnemonic as M
+    wl = M.WordList("slip39_words.txt", 1024)
+    ws = wl.words
+    ok = (ws == S.SLIP39.words and wl.lookup == S.SLIP39.lookup and len(ws) == 1024 and len(set(ws)) == 1024
+          and all(len(w) >= 4 for w in ws) and len({w[:4] for w in ws}) == 1024
+          and all(wl[w] == i and wl[w[:4]] == i and wl[i] == w for i, w in enumerate(ws)))
+    for bad in (1023, 1025, 2048):
+        try:
+            M.WordList("slip39_words.txt", bad)
+            ok = False
+        except ValueError:
+            pass
+    return ok, len(ws), 1024
 
 
 def p_interp_lagrange(c):
@@ -413,6 +437,7 @@ PREDICATES = {
     "prefix_words_same_share": p_prefix_same,
     "decrypt_encrypt_id": p_crypt_rt,
     "gf256_tables": p_tables,
+    "slip39_wordlist": p_wordlist,
     "interpolate_is_lagrange": p_interp_lagrange,
 }
 
@@ -449,6 +474,9 @@ def vector_groups():
 
 
 # --------------------------------------------------------------------------------- generation
+# passphrases are bytes and are used verbatim: empty, ASCII, UTF-8, arbitrary bytes, surrounded by whitespace
+PASSPHRASES = [b"", b"TREZOR", "pässwörd €".encode("utf-8"), b"\x00\xff\xfe\x80", b" leading", b"trailing\n", b" ",
+               b"\t both \r\n", b"\x0b\x0c", b"a" * 200]
 FIXED_PAIRS = [(1, 1), (1, 5), (1, 16), (2, 2), (2, 3), (3, 5), (16, 16), (2, 16), (15, 16)]
 ALL_PAIRS = [(k, n) for n in range(1, 17) for k in range(1, n + 1)]
 
@@ -471,8 +499,7 @@ def run(ctx):
         return line
 
     def pw_choice():
-        return rng.choice([b"", b"", b"TREZOR", "pässwörd €".encode("utf-8"), b"\x00\xff\xfe\x80",
-                           rbytes(rng, rng.randrange(1, 40))])
+        return rng.choice([b"", b"", b"TREZOR", rng.choice(PASSPHRASES), rbytes(rng, rng.randrange(1, 40))])
 
     if ctx.thorough:
         pairs = list(ALL_PAIRS)
@@ -483,6 +510,7 @@ def run(ctx):
     # ---------------------------------------------------------------- 1. tables, RS1024
     add("tables", ["tables"])
     preds.append(("gf256_tables", {}))
+    preds.append(("slip39_wordlist", {}))
     vlists = [[], [0], [1023], [0, 0, 0], [1] * 40, [1023] * 40, [1024], [2 ** 20], [2 ** 30 + 5, 7],
               [2 ** 64, 1, 2], list(range(20))]
     for _ in range(ctx.n(300)):
@@ -644,6 +672,7 @@ def run(ctx):
                     for _ in range(1 if s == m else 2):
                         subs.append(rng.sample(range(m), s))
             subs.append(rng.sample(range(m), rng.randint(1, m)))
+            subs.append([rng.randrange(m)])   # a single share
         for sub in subs:
             rng.shuffle(sub)
         return subs
@@ -664,7 +693,7 @@ def run(ctx):
             e, e2_left = 2, e2_left - 1
         elif n_success <= 20 and idx % 4 == 2:
             e = 1
-        pw = pw_choice()
+        pw = PASSPHRASES[idx] if idx < len(PASSPHRASES) else pw_choice()
         mn = bip39(nwords)
         shares, ident = make_set(mn, k, n, pw, e)
         if shares is None:
@@ -805,6 +834,26 @@ def run(ctx):
         for v in variants:
             e_v = 1 if v and S.Share.parse(v[0]).exponent == 1 else 0
             add_recover("recover:crafted", v, pw, e_v)
+        # ONE share of an otherwise sufficient set carries another id / exponent / threshold / count (same share
+        # value): only the consistency checks of ShareSet.__init__ stand between this and a recovery
+        if k >= 2:
+            base = {"pass": xb(pw), "k": k, "n": n, "e": 0}
+            members = rng.sample(range(len(sh)), rng.choice([k, min(k + 1, len(sh))]))
+            odd = rng.randrange(len(members))
+            alter = [("mixed_splits_rejected", "id", {"id": (a["id"] + 1 + rng.getrandbits(14)) % 32768}),
+                     ("mismatch_exponent_rejected", "exponent", {"exponent": rng.choice([1, 2, 31])})]
+            k2 = rng.choice([t for t in (k - 1, k + 1, 1, n) if 1 <= t <= n and t != k] or [0])
+            if k2:
+                alter.append(("mismatch_threshold_rejected", "threshold", {"group_threshold": k2}))
+            n2 = rng.choice([c for c in (n - 1, n + 1, 16) if k <= c <= 16 and c != n] or [0])
+            if n2:
+                alter.append(("mismatch_count_rejected", "count", {"group_count": n2}))
+            for pk, what, chg in alter:
+                if chg.get("id") == a["id"]:
+                    continue
+                chosen = [reencode(sh[i], **chg) if j == odd else sh[i] for j, i in enumerate(members)]
+                add_recover("recover:one_share_differs", chosen, pw, 0, reaches_decrypt=False)
+                preds.append((pk, dict(base, shares=chosen, want=REJECT, why=f"one share with another {what}")))
     # single 1-of-1 shares of other lengths: bytes_to_mnemonic accepts 128/160/192/224/256 bits only
     for sbl in (128, 144, 160, 176, 192, 208, 224, 240, 256, 272):
         m = S.Share(sbl, rng.getrandbits(15), 0, 0, 1, 1, 0, 1, rng.getrandbits(sbl)).mnemonic()
@@ -1041,11 +1090,12 @@ def run(ctx):
     for e in (20, 21, 31, 32, 60, 64, 100):
         add_crypt(rbytes(rng, rng.choice([16, 32])), rng.getrandbits(15), e, b"", ":exponent_overflow")
         add_crypt(b"", 1, e, b"", ":exponent_overflow", both=False)
-    for _ in range(ctx.n(100)):
+    for j in range(ctx.n(100)):
         preds.append(("decrypt_encrypt_id", {
             "payload": xb(rbytes(rng, rng.choice([16, 16, 32, 32, 2 * rng.randrange(1, 33)]))),
             "id": rng.choice([0, 1, 32767, 65535, rng.getrandbits(15), rng.getrandbits(16)]),
-            "e": rng.choice([0, 0, 0, 1, 1, 2]), "pass": xb(pw_choice())}))
+            "e": rng.choice([0, 0, 0, 1, 1, 2]),
+            "pass": xb(PASSPHRASES[j] if j < len(PASSPHRASES) else pw_choice())}))
 
     rec.count("cost:feistel passes requested from the driver (e=0 equivalents)", cost[0])
 
@@ -1060,7 +1110,10 @@ def run(ctx):
         answers[i] = a
     todo = [l for _, l in lines if l not in pre]
     todo = list(dict.fromkeys(todo))
-    for l, a in zip(todo, pmap(impl_line, todo, workers=ctx.workers)):
+    # the implementation side costs a few seconds in the quick tier (hashlib's PBKDF2 is fast): forking a pool only
+    # pays off for the thorough volume
+    heavy = ctx.thorough or len(todo) + len(preds) > 60000
+    for l, a in zip(todo, pmap(impl_line, todo, workers=ctx.workers) if heavy else [impl_line(l) for l in todo]):
         pre[l] = a
     for (kind, line), model in zip(lines, answers):
         impl = pre[line]
@@ -1069,7 +1122,7 @@ def run(ctx):
             rec.sample(kind, {"request": line, "answer": model})
         if impl == REJECT:
             rec.count(kind + ":reject")
-    results = pmap(_eval_item, preds, workers=ctx.workers)
+    results = pmap(_eval_item, preds, workers=ctx.workers) if heavy else [_eval_item(p) for p in preds]
     for (kind, case), (ok, got, want) in zip(preds, results):
         rec.cov_pred(kind, case)
         if ok:
